@@ -270,8 +270,12 @@ MC_CHUNKING_QUICK = [
     C('windows-1253', 'off', 'utf16', False, 3, [2, 3, 64], [0x20, 0x41, 0x80, 0xAA, 0xD2, 0xFF]),
     C('x-user-defined', 'off', 'utf8', False, 3, [4, 5, 64], [0x41, 0x80, 0xFF]),
     C('ISO-2022-JP', 'off', 'utf8', True, 2, [4, 5, 64], [0x1B, 0x24, 0x28, 0x42, 0x4A, 0x41, 0x21, 0x80]),
+    C('UTF-8', 'off', 'utf8', True, 2, [4, 5, 7, 64], [0x41, 0x80, 0xC2, 0xE0, 0xA0, 0xF0, 0x90]),
+    C('UTF-8', 'off', 'utf16', False, 2, [2, 3, 64], [0x41, 0x80, 0xC2, 0xE0, 0xA0, 0xF0, 0x90]),
 ]
 MC_CHUNKING_THOROUGH = MC_CHUNKING_QUICK + [
+    C('UTF-8', 'off', 'utf8', True, 3, [4, 5, 6, 7, 64], [0x41, 0x80, 0xBF, 0xC2, 0xE0, 0xA0, 0xED, 0xF0, 0x90, 0xF4, 0xFF]),
+    C('UTF-8', 'off', 'utf16', False, 3, [2, 3, 4, 64], [0x41, 0x80, 0xBF, 0xC2, 0xE0, 0xA0, 0xED, 0xF0, 0x90, 0xF4, 0xFF]),
     C('Big5', 'off', 'utf8', True, 4, [4, 5, 6, 7, 8, 64], [0x20, 0x40, 0x7E, 0x80, 0x81, 0x87, 0x88, 0x62, 0xA4, 0xC8, 0xFE, 0xFF]),
     C('Shift_JIS', 'off', 'utf16', False, 4, [2, 3, 4, 64], [0x20, 0x3F, 0x40, 0x7E, 0x80, 0x81, 0x82, 0x9F, 0xA0, 0xA1, 0xDF, 0xE0, 0xFC, 0xFD, 0xFF]),
     C('EUC-KR', 'off', 'utf16', True, 4, [2, 3, 64], [0x20, 0x2C, 0x41, 0x5A, 0x5B, 0x80, 0x81, 0xA1, 0xB0, 0xC6, 0xC7, 0xFE, 0xFF]),
@@ -419,7 +423,7 @@ def plan_C02(rep, seed, tier):
     rv(rep, binp, 'dec-cutsets', seed, tier, shards=32 if tier == 'thorough' else 16)
     rv(rep, binp, 'dec-random', seed, tier)
     rv(rep, binp, 'dec-deep', seed, tier, shards=32 if tier == 'thorough' else 16)
-    run_mc_set(rep, binp, MC_CHUNKING_THOROUGH if tier == 'thorough' else MC_CHUNKING_QUICK,
+    run_mc_set(rep, binp, MC_CHUNKING_THOROUGH if tier == 'thorough' else [MC_CHUNKING_QUICK[i] for i in (0, 1, 2, 4, 5, 7, 8, 9)],
                'Layer I x DecoderMonitor: all Stage/Invoke interleavings, invariant NoViolation (prefix rule, completeness, spans, progress, no panic)')
     rep.cov['rule'] = ('all cut sets of every stream of length <= 3 (thorough: 4, plus seeded 5..7) over the per-encoding class alphabet x capacities min..min+3 and 64 '
                        'x 4 sinks x replacement x empty final call; seeded random histories with re-cuts, empty calls and queried capacities')
@@ -495,6 +499,21 @@ def plan_C08(rep, seed, tier):
     rv(rep, binp, 'enc-cutsets', seed, tier, extra=['--cap', 'min'], tag='enc-cutsets-min')
     rv(rep, binp, 'enc-random', seed, tier, extra=['--cap', 'min1'], tag='enc-random-min1')
     rv(rep, binp, 'dec-deep', seed, tier, extra=['--thin', '2'] if tier == 'quick' else [], tag='dec-deep')
+    # liveness form on Layer I x monitor: under weak fairness of "raise last and call with the minimum capacity" the stream ends
+    import concurrent.futures
+    live = [MC_CHUNKING_QUICK[i] for i in (0, 2, 4, 7, 8)] + [MC_BOM_QUICK[i] for i in (0, 3, 4)]  # incl. UTF-8
+    if tier == 'thorough':
+        live = MC_CHUNKING_QUICK + MC_BOM_QUICK
+    with concurrent.futures.ThreadPoolExecutor(max_workers=5) as ex:
+        futs = [ex.submit(mc_run, 'MC_DecLive', cfg, ('NoViolation',), ('Termination',), None, 3, 3000, False, '6g', 'LiveSpec') for cfg in live]
+        for cfg, f in zip(live, futs):
+            r = f.result()
+            rep.add_mc(r['name'], r, 'liveness: LiveSpec (WF of Invoke(minimum capacity, last)) => <>(done): the documented caller loop terminates; safety: NoViolation')
+            rep.cov['mc_runs'][-1]['consts'] = cfg
+            if r.get('violated') or not r.get('completed'):
+                rep.cov['mc_runs'][-1]['model_violation'] = True
+                rep.notes.append('MODEL-ALARM MC_DecLive %s: %s' % (r['name'], (r.get('error_text') or '')[:1200]))
+                log('MODEL-ALARM', r['name'], (r.get('error_text') or '')[:500])
     rep.cov['rule'] = ('the documented caller loop with minimum (and minimum+1) capacities on all cut sets of short streams/texts and on seeded long ones; '
                        'zero-progress OutputFull, more than 4*units+16 calls, or no termination within 8*units+64 calls is a violation')
 
